@@ -2,7 +2,7 @@
    Statements about the tables regenerated from internal/gem/graphemeclusters.go. *)
 From Coq Require Import List Bool ZArith Lia.
 Import ListNotations.
-From Rosed Require Import Base.Cls Base.Intervals Gem.Segment gen.Tables ref.Ucd13 Inst.Go.
+From Rosed Require Import Base.Cls Base.Intervals Gem.Segment gen.Tables ref.Ucd13 Inst.GoP.
 Open Scope Z_scope.
 
 (* all 14 predicates (13 Grapheme_Cluster_Break values and Extended_Pictographic)
